@@ -8,7 +8,8 @@ from . import terms as T
 from .terms import Term
 from .interp import Cond
 
-import os
+import os, sys
+sys.set_int_max_str_digits(0)
 DEBUG = bool(os.environ.get('SYMX_DEBUG'))
 PI_LO = Fraction(3141592653589793, 10**15)
 PI_HI = Fraction(3141592653589794, 10**15)
